@@ -284,6 +284,19 @@ pub fn run(c: &Ctx) {
         }
         c.judge("sym", &case, check_sym(&case));
     });
+    // start values with set-uid / set-gid / sticky bits: a clause speaks about rwx only, the special bits stay
+    {
+        let specials = [0o1777u32, 0o4755, 0o2750, 0o7777, 0o1000, 0o6644];
+        par_for((specials.len() * cl.len() * 2) as u64, 256, |i| {
+            let kind = if i % 2 == 0 { "file" } else { "dir" };
+            let j = (i / 2) as usize;
+            let case = SymCase { stdfs: false, kind: kind.to_string(), start: specials[j % specials.len()], expr: cl[j / specials.len()].clone() };
+            c.eval(1);
+            c.nontrivial(fp(&(kind, case.start, &case.expr)));
+            c.class("sym:start-with-special-bits");
+            c.judge("sym", &case, check_sym(&case));
+        });
+    }
     // links
     par_for(64 * cl.len() as u64 * 2, 1024, |i| {
         let kind = if i % 2 == 0 { "link-file" } else { "link-dir" };
@@ -546,6 +559,27 @@ pub fn run(c: &Ctx) {
             c.judge("diff", &json!(null), r);
         });
         c.note("directed_tree_option_cases_on_stdfs", std_cases.len());
+        // chains at the length where resolution stops: 39 and 40 links are followed by the kernel (and must be by
+        // Memfs), whatever the call
+        for n in [1usize, 2, 39, 40] {
+            let mut setup = vec![Op::MkdirM("@/c".into(), 0o755), Op::WriteAll("@/c/f".into(), b"x".to_vec())];
+            for k in (1..=n).rev() {
+                let target = if k == n { "@/c/f".to_string() } else { format!("@/c/l{}", k + 1) };
+                setup.push(Op::Symlink(format!("@/c/l{}", k), target));
+            }
+            for call in [
+                Op::ChmodB("@/c/l1".into(), ChmodOpt { sel: ChmodSel::All(0o600), recursive: false, follow: true }),
+                Op::ChmodB("@/c".into(), ChmodOpt { sel: ChmodSel::Files(0o640), recursive: true, follow: true }),
+                Op::ChownB("@/c/l1".into(), ChownOpt { uid: Some(5), gid: Some(6), recursive: false, follow: true }),
+            ] {
+                let case = crate::props::c02::DiffCase { setup: setup.clone(), calls: vec![call] };
+                c.eval(1);
+                c.nontrivial(fp(&format!("chain{}{:?}", n, case.calls)));
+                c.class("link-chain-at-the-resolution-limit:stdfs-vs-memfs");
+                let r = crate::props::c02::check_diff(&case).map_err(|f| f.with_case("diff", serde_json::to_value(&case).unwrap()));
+                c.judge("diff", &json!(null), r);
+            }
+        }
     }
     // (b) trees x options against the reference model
     let n = c.tier.pick(8_000, 200_000);
